@@ -675,11 +675,140 @@ impl RenderNodeInfo {
 }
 
 /// Common fields from a node.
-#[derive(Clone, Debug)]
+#[derive(Debug)]
 struct RenderNode {
     size_estimate: Cell<Option<SizeEstimate>>,
     info: RenderNodeInfo,
     style: ComputedStyle,
+}
+
+impl RenderNodeInfo {
+    /// Return references to all the child nodes, in the same order as
+    /// `take_children()`.
+    fn children(&self) -> Vec<&RenderNode> {
+        use RenderNodeInfo::*;
+        fn from_rows(rows: &[RenderTableRow]) -> Vec<&RenderNode> {
+            rows.iter()
+                .flat_map(|row| row.cells.iter())
+                .flat_map(|cell| cell.content.iter())
+                .collect()
+        }
+        match self {
+            Text(_) | Img(_, _) | Break | FragStart(_) => Vec::new(),
+            Container(v)
+            | Link(_, v)
+            | Em(v)
+            | Strong(v)
+            | Strikeout(v)
+            | Code(v)
+            | Block(v)
+            | Header(_, v)
+            | Div(v)
+            | BlockQuote(v)
+            | Ul(v)
+            | Ol(_, v)
+            | Dl(v)
+            | Dt(v)
+            | Dd(v)
+            | ListItem(v)
+            | Sup(v) => v.iter().collect(),
+            Table(tab) => from_rows(&tab.rows),
+            TableBody(rows) => from_rows(rows),
+            TableRow(row, _) => from_rows(std::slice::from_ref(row)),
+            TableCell(cell) => cell.content.iter().collect(),
+        }
+    }
+
+    /// Clone everything except the child nodes, using `children` (already
+    /// cloned, in the order of `children()`) in their place.
+    fn clone_with_children(&self, children: Vec<RenderNode>) -> RenderNodeInfo {
+        use RenderNodeInfo::*;
+        fn clone_cell(
+            cell: &RenderTableCell,
+            children: &mut std::vec::IntoIter<RenderNode>,
+        ) -> RenderTableCell {
+            RenderTableCell {
+                colspan: cell.colspan,
+                content: children.take(cell.content.len()).collect(),
+                size_estimate: cell.size_estimate.clone(),
+                col_width: cell.col_width,
+                style: cell.style.clone(),
+            }
+        }
+        fn clone_rows(rows: &[RenderTableRow], children: Vec<RenderNode>) -> Vec<RenderTableRow> {
+            let mut children = children.into_iter();
+            rows.iter()
+                .map(|row| RenderTableRow {
+                    cells: row
+                        .cells
+                        .iter()
+                        .map(|cell| clone_cell(cell, &mut children))
+                        .collect(),
+                    col_sizes: row.col_sizes.clone(),
+                    style: row.style.clone(),
+                })
+                .collect()
+        }
+        match self {
+            Text(s) => Text(s.clone()),
+            Img(src, title) => Img(src.clone(), title.clone()),
+            Break => Break,
+            FragStart(s) => FragStart(s.clone()),
+            Container(_) => Container(children),
+            Link(target, _) => Link(target.clone(), children),
+            Em(_) => Em(children),
+            Strong(_) => Strong(children),
+            Strikeout(_) => Strikeout(children),
+            Code(_) => Code(children),
+            Block(_) => Block(children),
+            Header(level, _) => Header(*level, children),
+            Div(_) => Div(children),
+            BlockQuote(_) => BlockQuote(children),
+            Ul(_) => Ul(children),
+            Ol(start, _) => Ol(*start, children),
+            Dl(_) => Dl(children),
+            Dt(_) => Dt(children),
+            Dd(_) => Dd(children),
+            ListItem(_) => ListItem(children),
+            Sup(_) => Sup(children),
+            Table(tab) => Table(RenderTable {
+                rows: clone_rows(&tab.rows, children),
+                num_columns: tab.num_columns,
+                size_estimate: tab.size_estimate.clone(),
+            }),
+            TableBody(rows) => TableBody(clone_rows(rows, children)),
+            TableRow(row, vert) => {
+                let mut rows = clone_rows(std::slice::from_ref(row), children);
+                TableRow(rows.pop().unwrap(), *vert)
+            }
+            TableCell(cell) => TableCell(clone_cell(cell, &mut children.into_iter())),
+        }
+    }
+}
+
+impl Clone for RenderNode {
+    fn clone(&self) -> Self {
+        // Clone bottom-up with an explicit stack, so that a deeply nested
+        // tree can't overflow the stack.
+        let mut todo = vec![(self, false)];
+        let mut done: Vec<RenderNode> = Vec::new();
+        while let Some((node, children_done)) = todo.pop() {
+            if children_done {
+                let num_children = node.info.children().len();
+                let children = done.split_off(done.len() - num_children);
+                done.push(RenderNode {
+                    size_estimate: node.size_estimate.clone(),
+                    info: node.info.clone_with_children(children),
+                    style: node.style.clone(),
+                });
+            } else {
+                todo.push((node, true));
+                // Reversed, so that the first child is finished first.
+                todo.extend(node.info.children().into_iter().rev().map(|c| (c, false)));
+            }
+        }
+        done.pop().unwrap()
+    }
 }
 
 impl Drop for RenderNode {
